@@ -175,7 +175,9 @@ func (k *KVStore) Fork(c *storage.Config) (storage.Engine, error) {
 	if err != nil {
 		return nil, err
 	}
-	t := table.New(k.tableSize)
+	// The first table has the size the child is configured with: cursors and the space
+	// checks of the child are computed with its own table size, not with the parent's.
+	t := table.New(child.tableSize)
 	child.tables = append(child.tables, t)
 	t.SetCoefficient(child.coefficient)
 	child.tablesByCoefficient[child.coefficient] = t
